@@ -61,6 +61,9 @@ Fails(ln) ==
           THEN {"header_signing_used_when_both_advertised"} ELSE {})
   \cup (IF Rejected(ln) /\ ln.end # "error" THEN {"rejection_must_surface_as_error"} ELSE {})
   \cup (IF ln.end = "hang" THEN {"handshake_must_terminate"} ELSE {})
+  (* extended behaviour, beyond the listed property: reported as drift *)
+  \cup (IF ~ln.allClosed THEN {"EXT_every_connection_is_closed_whatever_the_outcome"} ELSE {})
+  \cup (IF ~ln.ctxReqOK THEN {"EXT_security_context_for_host_service_of_the_server_with_dce_style"} ELSE {})
 
 Drift(ln) ==
   LET f == Fold(Start(ln.prov), ln.prov, ln.script, 1)
